@@ -47,6 +47,8 @@ SCHEMAS = {
     "Dog": features.obj({"bark": {"type": "string"}, "tricks": {"type": "array", "items": {"type": "string"}}}, ["bark"]),
     "Pick": {"oneOf": [R("Cat"), R("Dog")]},
     "Bag": {"type": "object", "additionalProperties": {"type": "integer"}},
+    "MaybeThings": {"type": "array", "nullable": True, "items": R("Thing")},
+    "Prefs": {"type": "object", "nullable": True, "properties": {"compact": {"type": "boolean"}, "theme": {"type": "string"}}},
 }
 SHAPE = {
     "object": R("Thing"),
@@ -58,6 +60,9 @@ SHAPE = {
     "prim": {"type": "integer"},
     "str": {"type": "string"},
     "other": R("Other"),
+    "bool": {"type": "boolean"},
+    "nullarr": R("MaybeThings"),
+    "nullobj": R("Prefs"),
 }
 CTYPE = {"json": "application/json", "text": "text/plain", "octet": "application/octet-stream", "sse": "text/event-stream", "ndjson": "application/x-ndjson"}
 DECORATED = {"json": "Application/JSON; charset=utf-8", "text": "Text/Plain; charset=utf-8"}
@@ -136,7 +141,10 @@ def content(r: dict) -> dict | None:
 
 def operation(sc: dict, idx: int) -> dict:
     resp = {}
-    for st in sorted(sc["decl"], key=lambda s: (s == "default", s)):
+    # the `responses` map in the scenario's DOCUMENT order (Reply!DocSeq)
+    order = sc.get("order") or sorted(sc["decl"], key=lambda s: (s == "default", s))
+    assert sorted(order) == sorted(sc["decl"])
+    for st in order:
         r: dict[str, Any] = {"description": f"response {st}"}
         c = content(sc["decl"][st])
         if c:
@@ -176,11 +184,15 @@ def wire(body: dict) -> dict:
         return {"ctype": ctype, "body_text": body["tree"]["s"]}
     if ct == "octet":
         return {"ctype": ctype, "chunks": [list(base64.b64decode(i["s"])) for i in body["items"]]}
-    if ct == "sse":
+    if ct == "sse" and body["chunking"] == "multiline":
+        # one event, its JSON payload spread over several `data:` lines (no indentation: whether a reader strips one or
+        # all leading blanks of a value is C18's subject)
+        evs = [("".join("data: " + ln + "\n" for ln in json.dumps(from_tree(i), indent=0).splitlines()) + "\n").encode() for i in body["items"]]
+    elif ct == "sse":
         evs = [("data: " + json.dumps(from_tree(i)) + "\n\n").encode() for i in body["items"]]
     else:
         evs = [(json.dumps(from_tree(i)) + "\n").encode() for i in body["items"]]
-    if body["chunking"] == "whole":
+    if body["chunking"] in ("whole", "multiline"):
         chunks = cut(b"".join(evs), "whole")
     else:
         chunks = [c for e in evs for c in cut(e, "split")]
@@ -194,7 +206,7 @@ def got_of(oc: dict) -> dict:
     elif oc["kind"] == "return":
         g["pykind"] = oc["pykind"]
         g["pyclass"] = "model" if oc["pykind"].startswith("model:") else oc["pykind"]
-        g["tree"] = to_tree(oc["value"]) if oc["pykind"] != "none" else NOTREE
+        g["tree"] = to_tree(oc["value"])
     else:
         g["items"] = [to_tree(x) for x in oc["items"]]
         kinds = list(oc.get("pykinds", []))
@@ -310,7 +322,7 @@ def design(chk: Any, maxdecl: int, level: int) -> Counter:
         for a in ACTIONS_FIXED:
             chk.require(r.coverage.get(a, (0, 0))[1] > 0, f"vacuous design run (fixed): action {a} never taken")
     # negative control: a disagreement between the two selection copies is a design-level counterexample
-    for v in ("sig201", "hdl201"):
+    for v in ("sig201", "hdl201", "sigsorted"):
         r = run_tlc(chk.scratch, "MC_Reply", design_cfg(v, 2, 1, False, ["SelectionsAgree"]), allow_violation=True, workers=4)
         chk.add_tlc(f"MC_Reply[{v}]", r)
         chk.require("SelectionsAgree" in r.violated, f"design check does not see the disagreement of variant {v}")
@@ -323,7 +335,7 @@ def design(chk: Any, maxdecl: int, level: int) -> Counter:
 
 
 def scen_key(s: dict) -> str:
-    return json.dumps([s["served"], sorted(s["others"]), s["c"], s["sh"], bool(s.get("sib"))])
+    return json.dumps([s["served"], sorted(s["others"]), s["c"], s["sh"], bool(s.get("sib")), bool(s.get("desc"))])
 
 
 def scenarios(chk: Check, maxdecl: int, level: int) -> list[dict]:
@@ -402,20 +414,25 @@ def generate_and_serve(chk: Check, scen: list[dict], label: str, pack: int) -> l
                 if bad:
                     reason = {"stage": "import", "exctype": bad[0]["exc"]["type"], "msg": f"{bad[0]['m']}: {bad[0]['exc']['msg'][:160]}"}
                     for e in o["compile"]["errors"]:
-                        m = re.search(r"endpoints/t(\d+)\.py$", e["file"])
+                        m = re.search(r"endpoints/t_?(\d+)\.py$", e["file"])
                         if m:
                             culprits.add(int(m.group(1)))
             if reason is not None:
+                dead = list(grp) if len(grp) == 1 else []
                 if len(grp) > 1:
+                    # an operation whose OWN endpoint module (one per tag) does not compile makes every package it is in
+                    # unimportable (client.py imports all endpoint modules): no need to regenerate it alone
+                    dead = [x for x in grp if x[0] in culprits]
                     rest = [x for x in grp if x[0] not in culprits]
-                    if culprits and rest:
-                        retry += [[x] for x in grp if x[0] in culprits] + [rest]
+                    chk.cov.setdefault("package_splits", []).append({"round": round_, "size": len(grp), "culprits": len(culprits), "why": reason["msg"][:120]})
+                    if culprits:
+                        reason = {"stage": "compile", "exctype": "SyntaxError", "msg": "; ".join(f"{e['file']}: {e['msg']}" for e in o["compile"]["errors"])[:200]}
+                        retry += [rest] if rest else []
                     else:
                         retry += [[x] for x in grp]  # every scenario alone
-                else:
-                    idx, sc = grp[0]
+                for idx, sc in dead:
                     ev = [{"body": b, "got": _raise_got(reason["exctype"]), "_msg": f"{reason['stage']} failed: {reason['msg']}"} for b in sc["bodies"]]
-                    traces.append({"id": sc["id"], "served": sc["served"], "others": sc["others"], "c": sc["c"], "sh": sc["sh"], "role": sc["role"], "sib": sc["sib"], "via": "method", "ann": ["any"], "ev": ev, "_sc": sc, "_ret": "", "_unusable": reason["stage"]})
+                    traces.append({"id": sc["id"], "served": sc["served"], "others": sc["others"], "c": sc["c"], "sh": sc["sh"], "role": sc["role"], "sib": sc["sib"], "desc": sc["desc"], "via": "method", "ann": ["any"], "ev": ev, "_sc": sc, "_ret": "", "_unusable": reason["stage"]})
                 continue
             _check_obs(o, ["retkinds", "serve_by_path"], j["id"])
             if "helpers" in o:
@@ -440,7 +457,7 @@ def generate_and_serve(chk: Check, scen: list[dict], label: str, pack: int) -> l
                 if rk["kinds"] == ["unresolved"]:
                     chk.note_drift(f"return annotation of the method for scenario {sc['id']} cannot be evaluated ({rk['error']}); annotation clause not judged")
                     rk = {**rk, "kinds": ["any"]}
-                traces.append({"id": sc["id"], "served": sc["served"], "others": sc["others"], "c": sc["c"], "sh": sc["sh"], "role": sc["role"], "sib": sc["sib"], "via": "method", "ann": rk["kinds"], "ev": ev, "_sc": sc, "_ret": by_sid[f"{idx}#0"]["ret"]})
+                traces.append({"id": sc["id"], "served": sc["served"], "others": sc["others"], "c": sc["c"], "sh": sc["sh"], "role": sc["role"], "sib": sc["sib"], "desc": sc["desc"], "via": "method", "ann": rk["kinds"], "ev": ev, "_sc": sc, "_ret": by_sid[f"{idx}#0"]["ret"]})
         groups = retry
         chk.require(round_ <= 4, "package splitting did not converge")
     order = {s["id"]: i for i, s in enumerate(scen)}
@@ -469,10 +486,12 @@ def helper_cases(chk: Check) -> list[dict]:
     k = 0
     for fn, ct in (("iter_ndjson", "ndjson"), ("iter_sse_events_text", "sse"), ("iter_sse", "sse")):
         for seq in seqs:
-            for chunking in ("whole", "split"):
+            for chunking in ("whole", "split") + (("multiline",) if ct == "sse" else ()):
                 body = {"ct": ct, "var": "exact", "tree": NOTREE, "items": [_t(x) for x in seq], "chunking": chunking}
                 # what was sent, at the helper's level of abstraction: records for NDJSON, `data` payload texts for SSE
-                expect = body if fn == "iter_ndjson" else {**body, "items": [_t(json.dumps(x)) for x in seq]}
+                # (the lines of a multi-line payload joined with LF)
+                dump = (lambda x: json.dumps(x, indent=0)) if chunking == "multiline" else json.dumps
+                expect = body if fn == "iter_ndjson" else {**body, "items": [_t(dump(x)) for x in seq]}
                 _HELPER_CASES.append({"id": f"h{k:02d}", "fn": fn, "chunks": wire(body)["chunks"], "body": expect})
                 k += 1
     for seq in (["YWJj"], ["YWIA", "/2Nk"], ["/2Nk", "YWIA"], []):
@@ -489,7 +508,7 @@ def helper_traces(chk: Check) -> list[dict]:
     tr = []
     for h in helper_cases(chk):
         oc = outs[h["id"]]
-        tr.append({"id": h["id"], "served": "200", "others": [], "c": h["body"]["ct"], "sh": "object" if h["body"]["ct"] != "octet" else "-", "role": "helper", "sib": False, "via": "helper:" + h["fn"], "ann": ["any"], "ev": [{"body": h["body"], "got": got_of(oc), "_msg": oc.get("exc", {}).get("msg", "")[:160] if oc["kind"] == "raise" else ""}], "_sc": {"helper": h["fn"], "chunks": [bytes(c).decode("latin-1") for c in h["chunks"]]}})
+        tr.append({"id": h["id"], "served": "200", "others": [], "c": h["body"]["ct"], "sh": "object" if h["body"]["ct"] != "octet" else "-", "role": "helper", "sib": False, "desc": False, "via": "helper:" + h["fn"], "ann": ["any"], "ev": [{"body": h["body"], "got": got_of(oc), "_msg": oc.get("exc", {}).get("msg", "")[:160] if oc["kind"] == "raise" else ""}], "_sc": {"helper": h["fn"], "chunks": [bytes(c).decode("latin-1") for c in h["chunks"]]}})
     return tr
 
 
@@ -498,7 +517,7 @@ def helper_traces(chk: Check) -> list[dict]:
 
 
 def _good(body: dict, got: dict, ann: list[str], c: str, sh: str) -> dict:
-    return {"served": "200", "others": [], "c": c, "sh": sh, "role": "primary", "sib": False, "via": "method", "ann": ann, "ev": [{"body": body, "got": got}]}
+    return {"served": "200", "others": [], "c": c, "sh": sh, "role": "primary", "sib": False, "desc": False, "via": "method", "ann": ann, "ev": [{"body": body, "got": got}]}
 
 
 def negative_traces() -> list[dict]:
@@ -524,6 +543,12 @@ def negative_traces() -> list[dict]:
         ("model_outside_annotation", _good(jb(T1), ret("model:Thing", T1), ["model:Other"], "json", "object"), "C05.kind"),
         ("list_reordered", _good(jb([T1, T2]), ret("list", [T2, T1]), ["list"], "json", "array"), "C05.value"),
         ("raised", _good(jb(T1), raised, A, "json", "object"), "C05.raised"),
+        ("control_null_body_of_nullable", _good(jb(None), ret("none", None), ["list", "none"], "json", "nullarr"), None),
+        ("control_empty_list_of_nullable", _good(jb([]), ret("list", []), ["list", "none"], "json", "nullarr"), None),
+        ("empty_list_became_none", _good(jb([]), ret("none", None), ["list", "none"], "json", "nullarr"), "C05.value"),
+        ("empty_model_became_none", _good(jb({}), ret("none", None), ["model:Prefs", "none"], "json", "nullobj"), "C05.value"),
+        ("zero_became_none", _good(jb(0), ret("none", None), ["int"], "json", "prim"), "C05.value"),
+        ("null_became_empty_list", _good(jb(None), ret("list", []), ["list", "none"], "json", "nullarr"), "C05.value"),
         ("control_none", _good(none, ret("none", NOTREE), ["none"], "none", "-"), None),
         ("value_for_no_content", _good(none, ret("str", ""), ["none"], "none", "-"), "C05.none_expected"),
         ("control_text", _good(text, ret("str", "hello world"), ["str"], "text", "str"), None),
@@ -572,8 +597,8 @@ def judge(chk: Check, traces: list[dict], label: str, negatives: bool) -> dict[s
     for n in negs:
         got = sorted({f["clause"] for f in vs[n["id"]]["fails"]})
         want = [n["_expect"]] if n["_expect"] else []
-        chk.require(got == want, f"synthetic trace {n['_name']} judged {got}, expected {want}")
-        chk.cov.setdefault("negative_traces_rejected", {})[n["_name"]] = n["_expect"] or "accepted (control)"
+        chk.require((got == []) if not want else (want[0] in got), f"synthetic trace {n['_name']} judged {got}, expected {want}")
+        chk.cov.setdefault("negative_traces_rejected", {})[n["_name"]] = " + ".join(got) or "accepted (control)"
     return vs
 
 
@@ -646,7 +671,7 @@ def account(chk: Check, traces: list[dict], vs: dict[str, dict], design_dev: Cou
 def scen_label(sc: dict) -> str:
     if "decl" not in sc:
         return json.dumps(sc)[:80]
-    return ("[with sibling operation] " if sc.get("sib") else "") + "{" + ", ".join(f"{st}: {r['c']}" + (f"/{r['sh']}" if r["sh"] != "-" else "") for st, r in sorted(sc["decl"].items())) + f"}} served {sc['served']}"
+    return ("[with sibling operation] " if sc.get("sib") else "") + ("[responses map in descending order] " if sc.get("desc") else "") + "{" + ", ".join(f"{st}: {r['c']}" + (f"/{r['sh']}" if r["sh"] != "-" else "") for st, r in sorted(sc["decl"].items())) + f"}} served {sc['served']}"
 
 
 # --------------------------------------------------------------------------------------------
@@ -716,7 +741,9 @@ def replay(chk: Check, path: str) -> None:
     body = sc.pop("body")
     # the scenario with every body of its cell (level 1) plus the failing one first
     r = run_tlc(chk.scratch, "Gen_Reply", f"SPECIFICATION Spec\nCONSTANTS\n MaxDecl = {len(sc['others']) + 1}\n Level = 1\nCHECK_DEADLOCK FALSE\n", workers=4)
-    match = [s for s in r.printed.get("SCEN", []) if s["served"] == sc["served"] and sorted(s["others"]) == sorted(sc["others"]) and s["c"] == sc["c"] and s["sh"] == sc["sh"] and s["sib"] == sc["sib"]]
+    for x in r.printed.get("SCEN", []):
+        x.setdefault("desc", False)
+    match = [s for s in r.printed.get("SCEN", []) if s["served"] == sc["served"] and sorted(s["others"]) == sorted(sc["others"]) and s["c"] == sc["c"] and s["sh"] == sc["sh"] and s["sib"] == sc["sib"] and s["desc"] == sc.get("desc", False)]
     chk.require(len(match) == 1, "the replay's scenario is not in the specified scenario space")
     s = match[0]
     s["others"] = sorted(s["others"])
